@@ -783,6 +783,11 @@ pub fn c04(tier: &str) -> Vec<Family> {
         scn("wide/fan", &f, vec![pe(0, 1, 1), pe(0, 1, 2)]),
     ];
     let mut out = vec![Family::new("deterministic_benches", TAGS_QUIESCENCE, sc).cap(cap).invariant().hang_violation()];
+    // Batches of same-time events larger than the target mailbox (the compound delivery has to wait).
+    let mut batches = family_named(c03(tier), "scheduler_batches");
+    batches.tags = TAGS_QUIESCENCE;
+    batches.hang_is_violation = true;
+    out.push(batches);
     for (name, threads) in [("workers_3", 3usize), ("workers_17", 17), ("workers_63", 63), ("workers_64", 64)] {
         out.push(Family::new(name, TAGS_QUIESCENCE_WIDE, wide.clone()).uncontrolled(threads, 3).hang_violation());
     }
